@@ -57,9 +57,10 @@ CLAIMED = {
          'reported errors are unconstrained float32 (NaN, +-Inf included), stored state and gradients arbitrary; z3 proves for all of them and every step index that '
          'each stored preconditioner is bit-for-bit the old one or a root whose error is finite and strictly below the threshold, and that preconditioners and all '
          'metric leaves are bit-identical off-schedule; found (now fixed) the arithmetic blend in the sharded path; violations are replayed by fault injection '
-         '(NaN/Inf/huge/tiny gradients at random steps) on the real optimizers.',
+         '(NaN/Inf/huge/tiny gradients at random steps) on the real optimizers.  Finiteness clause, zero-gradient case (G4): from every finite state bounded by 2^40 with '
+         'finite roots a zero gradient gives a finite update, on the full FP32 cone without abstraction (best effort: an undecided attempt is reported, not counted).',
     note='Root routine is a stub with contract "error is NaN or >= 0"; float arithmetic feeding the gate is abstracted to fresh values (over-approximation); '
-         'finiteness of the update for moderate gradients (last sentence of the property) is not attempted; thresholds {0, 2^-100, 0.125, 3e38}.',
+         'finiteness of the update for NON-ZERO moderate gradients is outside the claim (needs magnitude bounds through the root); thresholds {0, 2^-100, 0.125, 3e38}.',
     design='§3 C03', technique='jaxpr->SMT symbolic evaluation in QF_FP (bit-precise float32), cone abstraction, z3'),
   'C13': dict(
     text='Bounded SMT verification of device-count invariance: the real update jaxpr traced under axis_env=[(batch, D)] is evaluated SPMD (one symbolic '
@@ -106,14 +107,17 @@ CLAIMED = {
          'the 1x1 crash); one evaluation of the coupled-Newton loop BODY from an arbitrary invariant state re-establishes M = H^p D, symmetry, commutation, exactly-zero '
          'padding and error = max|M - I_masked| (so in exact arithmetic the reported error EQUALS the residual at loop exit); the initial carry satisfies the invariant; '
          'the convergence blend returns H or the old H and the reported error bounds the residual of what is returned; the eigh variant is symmetric; one power-iteration '
-         'step gives a Rayleigh quotient below every upper bound of the spectrum; all-padding input returns exactly 0.',
-    note='ONLY the exact-arithmetic part of the property: rounding slack proportional to the condition number, convergence within 100 iterations, LOBPCG deflation and '
+         'step gives a Rayleigh quotient below every upper bound of the spectrum; all-padding input returns exactly 0; for the LOBPCG-deflated variant (eigenpair routine and '
+         'loops cut to arbitrary outputs) the reported error and diagnostics are max|X^p(A+ridge I)-I| of the returned X against the original matrix.',
+    note='ONLY the exact-arithmetic part of the property: rounding slack proportional to the condition number, convergence within 100 iterations, the quality of LOBPCG eigenpairs and '
          'dtype are declined (floating-point iterative linear algebra); n <= 3, p <= 4; X^p(A+dI)=I for the eigh variant is stretch (z3 unknown).',
     design='§3 C01', technique='jaxpr->SMT symbolic evaluation of loop bodies (inductive invariant), z3 nlsat'),
   'C11': dict(
     text='Bit-precise QF_FP verification (float32 with flush-to-zero as XLA:CPU executes; cvc5 + z3 raced per query) of the jaxprs of the real QuantizedValue.quantize / '
          'to_float for EVERY finite float32 column of m rows: stored integers within +-127 / +-32767 (no wrap), round trip within bucket/2 + 2 ulp(maxabs), zeros and the '
-         'extracted diagonal exact, re-quantisation idempotent; three genuine boundary defects (max-abs = FLT_MAX overflows to inf; max-abs below 127*2^-126 flushes to 0; '
+         'extracted diagonal exact, re-quantisation reproduces the same integers; XLA:CPU lowers divisions by constants / broadcast operands as reciprocal multiplications '
+         '(found by the translator validation V0: 1 ulp), so every such division is modelled as either lowering and each obligation holds for all assignments; V0 compares the '
+         'encoding with the real code bit for bit (op-by-op and jitted) on boundary and random inputs; three genuine boundary defects (max-abs = FLT_MAX overflows to inf; max-abs below 127*2^-126 flushes to 0; '
          'subnormal diagonal entries flushed) are recorded as known findings, excluded by assumption and re-confirmed by replay on every run.',
     note='m <= 2 rows per column in the quick tier (3 thorough); bfloat16 mode not encoded; columns independent (the jaxpr reduces over axis 0 only); no FMA contraction.',
     design='§3 C11', technique='jaxpr->SMT in QF_FP (bit-precise float32 with FTZ), cvc5/z3 portfolio'),
@@ -122,7 +126,7 @@ CLAIMED = {
          'scores: per explored path one QF_BVFP query (float arithmetic first abstracted to fresh values, then bit-precise) decides whether some scores make it raise, assign '
          'a rank outside [1, dim] or exceed group size x base rank; found (now fixed) the leftover-loop over-allocation and a float-cancellation assertion failure; models are '
          'replayed on the real function.',
-    note='One group of n <= 2 (thorough 3) equal-dimension axes, dims <= 6; scoring rules and checkpoint I/O stubbed; branch feasibility during exploration is decided by '
+    note='One group of n <= 2 (thorough 3) equal-dimension axes, dims <= 6, plus layers with two axes forming 2-3 groups of different dimension; scoring rules and checkpoint I/O stubbed; branch feasibility during exploration is decided by '
          'concrete witnesses or cvc5 (unknown = explored).',
     design='§3 C17', technique='forking proxy symbolic execution of Python with QF_BVFP path queries (cvc5)'),
 }
